@@ -19,7 +19,8 @@ TAGS = {
     "C07": {"C01", "C02", "PANIC", "HANG"},
     "C08": {"C01", "C02", "PANIC", "HANG"},
     "C09": {"C01", "C02", "C10", "PANIC", "HANG", "C03.R7order", "C03.R7names"},
-    "C10": {"C10", "C01.result"},
+    "C10": {"C10"},
+    "C15": {"C15"},
     "C16": {"C16"},
     "C17": {"C17", "C01", "C02", "PANIC"},
     "C18": {"C01", "C02", "C18", "PANIC", "HANG"},
@@ -200,4 +201,111 @@ def check_c01(tier, seed):
                   FILE_ASSUME)
 
 
-CHECKS = {"C01": check_c01}
+def check_c02(tier, seed):
+    out = Outcome("C02", tier, seed)
+    rng = random.Random(seed)
+    run_batch(out, "thresholds", "A", gens.threshold_histories(tier, seed))
+    for dn, hs in random_batches(seed + 1, tier, 50, 500, 40, dicts=("A",), reopen_p=0.06).items():
+        run_batch(out, f"forks{dn}", dn, gens.with_forks(rng, hs, 0.7))
+    run_batch(out, "edges", "A", edges_namespace(out, tier))
+    return finish(out, "model_checking",
+                  "after EVERY operation the backing bytes are copied without flush and reopened strictly and permissively; "
+                  "both dumps must equal the model tree (hence the live view). Forked histories continue on the reopened file. "
+                  "Threshold histories add directory / FAT / MiniFAT (thorough: DIFAT) sectors at real geometry",
+                  FILE_ASSUME + ["crash points are operation boundaries at which no handle holds pending data (all driver ops flush)"])
+
+
+def check_c03(tier, seed):
+    out = Outcome("C03", tier, seed)
+    run_batch(out, "thresholds", "A", gens.threshold_histories(tier, seed))
+    for dn, hs in random_batches(seed + 2, tier, 50, 500, 40, dicts=("A", "B", "D")).items():
+        run_batch(out, f"random{dn}", dn, hs)
+    run_batch(out, "edges", "A", edges_namespace(out, tier))
+    return finish(out, "model_checking",
+                  "WF(img) (rules R1..R8 of spec/CfbImage.tla) evaluated by TLC on the independent raw decode of the image after every heavy event",
+                  FILE_ASSUME)
+
+
+def check_c10(tier, seed):
+    out = Outcome("C10", tier, seed)
+    run_batch(out, "edges", "A", edges_namespace(out, tier))
+    for dn, hs in random_batches(seed + 3, tier, 60, 500, 40, dicts=("A", "E")).items():
+        run_batch(out, f"random{dn}", dn, hs)
+    return finish(out, "model_checking",
+                  "every call the model refuses (NotFound / AlreadyExists / InvalidInput) must leave the image hash unchanged and the "
+                  "following events must validate against the unchanged model state; refusal x state coverage comes from the MC_Tree graph",
+                  FILE_ASSUME)
+
+
+def check_c16(tier, seed):
+    out = Outcome("C16", tier, seed)
+    run_batch(out, "thresholds", "A", gens.threshold_histories(tier, seed))
+    for dn, hs in random_batches(seed + 4, tier, 40, 300, 40, dicts=("A", "B")).items():
+        run_batch(out, f"random{dn}", dn, hs)
+    from . import imagechecks
+    imagechecks.c16_deviations(out, tier, seed)
+    return finish(out, "model_checking",
+                  "part 1: for every image produced, strict Ok => permissive Ok with identical dump; part 2: documented deviations injected "
+                  "into TLC-generated layouts: permissive must expose the undamaged content, strict must reject",
+                  FILE_ASSUME)
+
+
+def check_c08(tier, seed):
+    out = Outcome("C08", tier, seed)
+    run_batch(out, "templates", "A", gens.c08_templates(tier))
+    hs = random_batches(seed + 5, tier, 40, 400, 50, dicts=("A",), meta_p=0.0, reopen_p=0.02,
+                        sizes=[0, 1, 63, 64, 65, 100, 511, 512, 513, 4095, 4096, 4097, 5000, 8191, 8192, 8200])["A"]
+    run_batch(out, "random", "A", hs)
+    return finish(out, "model_checking",
+                  "CfbTree.SetLen extends with a zero run; all writes use fresh non-zero fill bytes so stale data is a mismatch in api / Abs(img) / reopen dumps. "
+                  "T1 write-shrink-grow triples, T2 reuse after remove/shrink (with/without pinned mini-stream tail), T3 across migrations",
+                  FILE_ASSUME)
+
+
+def check_c15(tier, seed):
+    out = Outcome("C15", tier, seed)
+    hs = gens.c15_templates(tier)
+    run_batch(out, "cycles", "A", hs)
+    return finish(out, "model_checking",
+                  "prefix + 4 repetitions of a cycle that is net-zero on the model tree (checked); file length after repetitions 3 and 4 must equal the length after repetition 2",
+                  FILE_ASSUME + ["repetition 2 may still grow (containers created in repetition 1 capture freed sectors); only later growth is a leak"])
+
+
+def check_c17(tier, seed):
+    out = Outcome("C17", tier, seed)
+    run_batch(out, "meta", "A", gens.c17_histories(tier, seed))
+    hs = random_batches(seed + 6, tier, 30, 300, 40, dicts=("A",), meta_p=0.3)["A"]
+    run_batch(out, "random", "A", hs)
+    return finish(out, "model_checking",
+                  "setters / getters against CfbTree metadata; expected FILETIME quantisation from a Python big-integer table (values.json); "
+                  "targets placed around directory-sector boundaries; both reopen modes",
+                  FILE_ASSUME + ["numeric time conversion is decided by table lookup for a finite instant dictionary, not by TLC arithmetic"])
+
+
+def check_c07(tier, seed):
+    out = Outcome("C07", tier, seed)
+    rng = random.Random(seed)
+    d = gens.Dict("A")
+    n = 60 if tier == "quick" else 600
+    hs = [gens.c07_random(rng, d, 3 if i % 2 == 0 else 4, f"hnd{i}") for i in range(n)]
+    run_batch(out, "random", "A", hs)
+    from . import dirchecks
+    dirchecks.c07_edges(out, tier)
+    return finish(out, "model_checking",
+                  "handles held open across structural mutation of OTHER entries, then used; full api / Abs(img) / reopen equality after every step",
+                  FILE_ASSUME + ["a handle's own stream is never removed or re-created while it is open; one handle per stream"])
+
+
+def check_c09(tier, seed):
+    out = Outcome("C09", tier, seed)
+    for dn, hs in random_batches(seed + 7, tier, 30, 300, 40, dicts=("A", "B", "C", "D", "E"), deep=False).items():
+        run_batch(out, f"random{dn}", dn, hs)
+    from . import dirchecks
+    dirchecks.c09_edges(out, tier)
+    return finish(out, "model_checking",
+                  "names validated / folded / ordered by CfbTree from dictionary unit sequences (computed in TLA+); path spellings normalised by the model",
+                  FILE_ASSUME + ["exceptional upper-casing characters are excluded from the dictionaries (no independent source for the historical CFB case table)"])
+
+
+CHECKS = {"C01": check_c01, "C02": check_c02, "C03": check_c03, "C07": check_c07, "C08": check_c08, "C09": check_c09,
+          "C10": check_c10, "C15": check_c15, "C16": check_c16, "C17": check_c17}
